@@ -197,10 +197,14 @@ def rule_tables(chk, funcs, table):
                 hyb = M.enclosing(c, ast.If)
                 chk.decide(table.get(a0.value) == 'hllsy' and hyb is not None and 'hybrid' in compact(hyb.test), 'dispatch-table', inst, node=c, file=GS, func=M.qualname(fn),
                            detail_bad='the hybrid blend is documented to use the HLLSY state, method %s is %s' % (a0.value, table.get(a0.value)), detail_ok='hybrid blend uses hllsy')
-            shape = len(rest) == 10 and rest[6:] == ['self.gamma', 'self.niter', 'self.tol', 'result']
-            pairs = shape and all(re.sub(r'[lrij]$', '', rest[i]) == re.sub(r'[lrij]$', '', rest[i + 1]) and rest[i] != rest[i + 1] for i in (0, 2, 4))
-            chk.decide(bool(shape and pairs), 'dispatch-table', inst + ':arguments', node=c, file=GS, func=M.qualname(fn),
-                       detail_bad='arguments (%s) are not (left, right) pairs of density, pressure, velocity followed by gamma, niter, tol, result' % ', '.join(rest),
+            # six different state values, then the solver parameters of the equation, then a two-element work array declared in this function (whatever the locals are called)
+            shape = len(rest) == 10 and rest[6:9] == ['self.gamma', 'self.niter', 'self.tol'] and isinstance(c.args[10], ast.Name)
+            decl = shape and [a for a in ast.walk(fn) if isinstance(a, ast.Assign) and compact(a.targets[0]) == rest[9]]
+            arr = shape and len(decl) == 1 and isinstance(decl[0].value, ast.Call) and M.call_name(decl[0].value) == 'declare' and \
+                [getattr(x, 'value', None) for x in decl[0].value.args] == ['matrix(2)']
+            pairs = shape and len(set(rest[:6])) == 6
+            chk.decide(bool(shape and pairs and arr), 'dispatch-table', inst + ':arguments', node=c, file=GS, func=M.qualname(fn),
+                       detail_bad='arguments (%s) are not six different state values (left, right density, pressure, velocity) followed by gamma, niter, tol and a matrix(2) result array of this function' % ', '.join(rest),
                        detail_ok='(%s)' % ', '.join(rest))
     # HELPERS closes over everything the dispatcher can reach
     t, _ = functions()
@@ -510,7 +514,16 @@ def rule_common_state_iterative(chk, funcs, names):
                 return eq(name)
             # iterate: the state after one iteration equals the initial state for every loop-carried variable the body reads
             bad = []
-            carried = [v for v in state if v in an.outs and not (isinstance(an.loop, ast.For) and v == an.loop.target.id) and v not in COUNTERS]
+            def counter(v):
+                # a variable that the loop only ever advances by a constant (`v += 1`, `v = v + 1`), whatever it is called
+                st_ = [a for a in ast.walk(an.loop) if isinstance(a, (ast.Assign, ast.AugAssign)) and compact(a.targets[0] if isinstance(a, ast.Assign) else a.target) == v]
+                def step(a):
+                    if isinstance(a, ast.AugAssign):
+                        return isinstance(a.op, (ast.Add, ast.Sub)) and isinstance(a.value, ast.Constant)
+                    b = a.value
+                    return isinstance(b, ast.BinOp) and isinstance(b.op, (ast.Add, ast.Sub)) and compact(b.left) == v and isinstance(b.right, ast.Constant)
+                return bool(st_) and all(step(a) for a in st_)
+            carried = [v for v in state if v in an.outs and not (isinstance(an.loop, ast.For) and v == an.loop.target.id) and not counter(v)]
             for v in carried:
                 after = ctx.rename(an.outs[v], fix)
                 if not ctx.prove_zero(after - init[v])[0]:
@@ -543,9 +556,6 @@ def rule_common_state_iterative(chk, funcs, names):
             chk.undecided('common-state', nm, node=funcs[nm], file=RS, func=nm, detail='prover gave up: %s' % e)
 
 
-COUNTERS = ('iteration', 'i')
-
-
 # ---------------------------------------------------------------------------------------------------------------------
 def rule_newton(chk, funcs):
     """exact: fd = df/dp on both branches, the update is the Newton step, the stopping test is the relative change"""
@@ -564,6 +574,7 @@ def rule_newton(chk, funcs):
         if len(calls) != 2:
             raise AnalysisError('exact no longer evaluates the pressure function once per side in its loop')
         iterate = compact(calls[0].value.args[0])
+        sides = []
         for c in calls:
             arr = compact(c.value.args[-1])
             side = [compact(a) for a in c.value.args[1:4]]
@@ -575,32 +586,56 @@ def rule_newton(chk, funcs):
                        detail_bad='for the side (%s) the second output of prefun_exact is not the p-derivative of the first (both branches, with the constants gamma1..gamma6 and '
                                   'the sound speed as defined in exact): the iteration is no longer Newton\'s and `change <= tol` no longer bounds the residual' % ', '.join(side),
                        detail_ok='d/dp of f equals fd on the rarefaction and the shock branch (symbolic differentiation)')
-            want = [iterate, 'rho' + arr[-1], 'p' + arr[-1], 'c' + arr[-1]]
+            # the side is the one whose density (a parameter of the solver) is handed over; the pressure must be that side's, the sound speed a value that is
+            # sqrt(gamma p / rho) of that side (whatever the local is called)
             got = [compact(a) for a in c.value.args[:4]]
-            chk.decide(got == want, 'newton-step', 'prefun_exact-call:%s' % arr, node=c, file=RS, func=nm,
-                       detail_bad='called with (%s), expected (%s): the pressure function of one side must see that side\'s density, pressure and sound speed' % (', '.join(got), ', '.join(want)),
+            sd = got[1][-1] if got[1] in ('rhol', 'rhor') else None
+            okc = False
+            if sd is not None and got[0] == iterate and got[2] == 'p' + sd:
+                cval = an.env0.get(got[3])
+                if cval is None and got[3] in ('cl', 'cr'):
+                    cval = None
+                wantc = ctx.fn('sqrt', [ctx.mul(ctx.var('gamma') * ctx.var('p' + sd), ctx.inv(ctx.var('rho' + sd)))])
+                okc = cval is not None and ctx.prove_zero(ctx.expand_all(cval) - ctx.expand_all(wantc))[0]
+            chk.decide(okc, 'newton-step', 'prefun_exact-call:%s' % (('side-' + sd) if sd else arr), node=c, file=RS, func=nm,
+                       detail_bad='called with (%s): the pressure function of one side must see the iterate and that side\'s density, pressure and sound speed sqrt(gamma p/rho)' % ', '.join(got),
                        detail_ok='(%s)' % ', '.join(got))
+            sides.append(sd)
+        chk.decide(sorted(x or '' for x in sides) == ['l', 'r'], 'newton-step', 'prefun_exact-call:both-sides', node=calls[0], file=RS, func=nm,
+                   detail_bad='the two evaluations of the pressure function are for sides %s (expected left and right)' % sides, detail_ok='left and right')
         a0, a1 = [compact(c.value.args[-1]) for c in calls]
-        F = an.outs[a0 + '[0]'] + an.outs[a1 + '[0]'] + ctx.var('~udifff')
+        if sides == ['r', 'l']:
+            a0, a1 = a1, a0
+        # the new iterate: the variable whose value the iterate takes over at the end of an iteration
+        cand = sorted(k for k in an.outs if k != iterate and '[' not in k and state_dep(an, k, iterate) and ctx.prove_zero(an.outs[k] - an.outs[iterate])[0])
+        if not cand:
+            raise AnalysisError('exact: no variable holds the new iterate that %s takes over' % iterate)
+        pnew = cand[0]
+        jump = ctx.var('ur') - ctx.var('ul')
+        F = an.outs[a0 + '[0]'] + an.outs[a1 + '[0]'] + jump
         dF = an.outs[a0 + '[1]'] + an.outs[a1 + '[1]']
-        new = [k for k in an.outs if k not in (iterate,) and state_dep(an, k, iterate) and k in ('p',)]
-        ok = bool(new) and ctx.prove_zero(ctx.mul(an.outs['p'] - ctx.var('~' + iterate), dF) + F)[0]
-        upd = an.where('p', an.loop.body)
+        ok = ctx.prove_zero(ctx.rename(ctx.mul(an.outs[pnew] - ctx.var('~' + iterate), dF) + F, inv_sub))[0]
+        upd = an.where(pnew, an.loop.body)
         chk.decide(ok, 'newton-step', 'exact:update', node=upd, file=RS, func=nm,
-                   detail_bad='p is not pold - (f_l + f_r + udifff)/(fd_l + fd_r)', detail_ok='p = pold - F/F\' with F = f_l + f_r + udifff')
-        ud = ctx.prove_zero(an.env0['udifff'] - (ctx.var('ur') - ctx.var('ul')))[0] if 'udifff' in an.env0 else False
-        chk.decide(ud, 'newton-step', 'exact:velocity-jump', node=an.where('udifff'), file=RS, func=nm, detail_bad='udifff is not ur - ul', detail_ok='udifff = ur - ul')
+                   detail_bad='%s is not %s - (f_l + f_r + (ur - ul))/(fd_l + fd_r)' % (pnew, iterate), detail_ok='%s = %s - F/F\' with F = f_l + f_r + ur - ul' % (pnew, iterate))
+        # the velocity jump, when kept in a loop-invariant local, is ur - ul
+        inv_reads = [v for v in an.body_reads if v in an.env0 and v not in an.outs and '[' not in v]
+        ud = [v for v in inv_reads if ctx.prove_zero(an.env0[v] - jump)[0]]
+        chk.decide(bool(ud) or ok, 'newton-step', 'exact:velocity-jump', node=an.where(ud[0]) if ud else upd, file=RS, func=nm, detail_bad='the velocity jump in the Newton residual is not ur - ul',
+                   detail_ok='%s = ur - ul' % (ud[0] if ud else 'residual'))
         # star velocity from the converged pressure functions
         for live, val, env in an.post.returns:
             if isinstance(val, Poly) and val.is_zero():
                 want = (ctx.var('ul') + ctx.var('ur') + ctx.var('~%s[0]' % a1) - ctx.var('~%s[0]' % a0)) * Poly.const(S.Fraction(1, 2))
-                chk.decide(ctx.prove_zero(env['result[1]'] - want)[0] and ctx.prove_zero(env['result[0]'] - ctx.var('~p'))[0], 'newton-step', 'exact:star-state', node=an.where('um', [s for s in fn.body if s.lineno > an.loop.lineno]),
+                post_ = [s_ for s_ in fn.body if s_.lineno > an.loop.lineno]
+                rnode = next((a_ for s_ in post_ for a_ in ast.walk(s_) if isinstance(a_, ast.Assign) and compact(a_.targets[0]) == 'result[1]'), an.loop)
+                chk.decide(ctx.prove_zero(env['result[1]'] - want)[0] and ctx.prove_zero(env['result[0]'] - ctx.var('~' + pnew))[0], 'newton-step', 'exact:star-state', node=rnode,
                            file=RS, func=nm, detail_bad='the returned state is not (p, (ul + ur + f_r - f_l)/2) of the last iterate', detail_ok='result = (p, (ul + ur + f_r - f_l)/2)')
         # stopping test: relative change of successive iterates against tol
         if len(an.exits) != 1:
             raise AnalysisError('exact: expected one break in the Newton loop')
         cnd, env = an.exits[0]
-        pn, po = an.outs['p'], ctx.var('~' + iterate)
+        pn, po = an.outs[pnew], ctx.var('~' + iterate)
         ref = Poly.const(1) - ctx.ind(ctx.fn('abs', [ctx.mul(pn - po, ctx.inv(pn + po))]) * Poly.const(2) - ctx.var('tol'))
         brk = [s for s in ast.walk(an.loop) if isinstance(s, ast.Break)]
         chk.decide(ctx.prove_zero(cnd - ref)[0], 'convergence-test', 'exact:relative-change', node=brk[0], file=RS, func=nm,
@@ -858,13 +893,21 @@ def rule_success(chk, funcs, names):
     vl = funcs.get('van_leer')
     if vl is not None:
         pre, loop, post = L.split(stripped(vl))
-        last = [a for a in ast.walk(loop) if isinstance(a, ast.Assign) and compact(a.targets[0]) == 'pstar']
-        floor_ok = bool(last) and isinstance(last[-1].value, ast.Call) and M.call_name(last[-1].value) == 'max' and 'smallp' in [compact(a) for a in last[-1].value.args] \
-            and 'pstar' in [compact(a) for a in last[-1].value.args]
-        sp = [a for a in ast.walk(vl) if isinstance(a, ast.Assign) and compact(a.targets[0]) == 'smallp']
-        floor_ok = floor_ok and len(sp) == 1 and isinstance(sp[0].value, ast.Constant) and sp[0].value.value > 0
+        # the pressure iterate is whatever the post block hands back as result[0]; its last assignment in the loop is max(<it>, <a positive literal, directly or through a local>)
         res = [a for s in post for a in ast.walk(s) if isinstance(a, ast.Assign) and compact(a.targets[0]) == 'result[0]']
-        floor_ok = floor_ok and len(res) == 1 and compact(res[0].value) == 'pstar'
+        pv = compact(res[0].value) if len(res) == 1 and isinstance(res[0].value, ast.Name) else None
+        last = [a for a in ast.walk(loop) if isinstance(a, ast.Assign) and compact(a.targets[0]) == pv]
+        floor_ok = pv is not None and bool(last) and isinstance(last[-1].value, ast.Call) and M.call_name(last[-1].value) == 'max' and len(last[-1].value.args) == 2 \
+            and pv in [compact(a) for a in last[-1].value.args]
+        sp = []
+        if floor_ok:
+            other = [a for a in last[-1].value.args if compact(a) != pv]
+            if len(other) == 1 and isinstance(other[0], ast.Name):
+                sp = [a for a in ast.walk(vl) if isinstance(a, ast.Assign) and compact(a.targets[0]) == other[0].id]
+                floor_ok = len(sp) == 1 and isinstance(sp[0].value, ast.Constant) and isinstance(sp[0].value.value, (int, float)) and sp[0].value.value > 0
+            else:
+                floor_ok = len(other) == 1 and isinstance(other[0], ast.Constant) and isinstance(other[0].value, (int, float)) and other[0].value > 0
+                sp = [ast.Assign(targets=[ast.Name(id='floor')], value=other[0])] if floor_ok else []
         chk.decide(floor_ok, 'positive-star-pressure', 'van_leer:floor', node=last[-1] if last else vl, file=RS, func='van_leer',
                    detail_bad='the last assignment of every iteration must be pstar = max(smallp, pstar) with smallp > 0, and result[0] = pstar',
                    detail_ok='pstar = max(smallp, pstar), smallp = %s > 0, result[0] = pstar' % (compact(sp[0].value) if sp else '?'))
